@@ -549,6 +549,7 @@ func init() {
 			170: "the handshake succeeded but the connection was closed or a deadline was left armed",
 			171: "the handshake failed but the network connection was not closed (or something happened to it after Close)",
 			172: "handshake I/O happened before the configured deadline was armed",
+			173: "the handshake succeeded but the connection was handed over with a read or write deadline still armed",
 		},
 	})
 }
